@@ -1,17 +1,235 @@
 import JF.Model.CellTaggers
 import JF.Model.FactorMaps
-import Mathlib.Data.List.Perm.Basic
+import JF.Lemmas.FactorCells
 /-!
 # C10 — Cell-based and file-based factor decompositions cover each partner exactly once
-(theorems follow)
+
+## Cell half
+The model (`JF.Model.CellTaggers`) has the four cell taggers, the walker domain of the cell-veto
+event handler with the target-cell computation of `send_event_time`, and the mediator's
+`get_arguments_cell_veto_event_handler`, over an occupancy state given as data.
+Main theorems: `cell_partition_veto`, `cell_partition_bounding` (+ corollaries `cell_targets_nodup`,
+`cell_target_exactly_one_family`), resting on `veto_domain_translate` (the walker domain translated
+to the active cell is exactly the set of non-nearby cells, each once) and `cells_split`
+(nearby / non-nearby are complementary).
 -/
 namespace JF.C10
 open JF.CellTaggers
+
+/-! ## cell half -/
+
+/-- the cells of the grid that are not nearby `c`, in grid order -/
+def nonNearby (g : Grid) (c : Cell) : List Cell := (allCells g.n).filter fun x => !(isNearby g c x)
+
+theorem vetoDomain_eq (g : Grid) : vetoDomain g = nonNearby g (zeroCell g.n) := by
+  simp [vetoDomain, vetoDomainKeyed, nonNearby, List.map_map, Function.comp_def]
+
+/-- The table of derivative bounds is keyed by `relative_cell(cell, zero_cell)` but looked up with
+the walker item `cell`: the two coincide, so the look-up in `send_event_time` cannot miss. -/
+theorem veto_key_is_item (g : Grid) (p : Cell × Cell) (hp : p ∈ vetoDomainKeyed g) : p.2 = p.1 := by
+  simp only [vetoDomainKeyed, List.mem_map, List.mem_filter] at hp
+  obtain ⟨c, ⟨hc, _⟩, rfl⟩ := hp
+  exact relative_zero (mem_allCells.mp hc)
+
+/-- **The veto domain is exactly the set of non-nearby cells.** Translating every cell the walker
+can sample by the active cell gives every cell that is not nearby the active cell, each exactly
+once (as lists: a permutation). -/
+theorem veto_domain_translate (g : Grid) (ac : Cell) (hac : Valid g.n ac) :
+    ((vetoDomain g).map (translate g.n ac)).Perm (nonNearby g ac) := by
+  have hz : Valid g.n (zeroCell g.n) := valid_zeroCell (valid_pos hac)
+  rw [vetoDomain_eq]
+  have hnd : ((nonNearby g (zeroCell g.n)).map (translate g.n ac)).Nodup := by
+    refine List.Nodup.map_on ?_ ((nodup_allCells g.n).filter _)
+    intro x hx y hy h
+    simp only [nonNearby, List.mem_filter] at hx hy
+    exact translate_inj hac (mem_allCells.mp hx.1) (mem_allCells.mp hy.1) h
+  rw [List.perm_ext_iff_of_nodup hnd ((nodup_allCells g.n).filter _)]
+  intro x
+  simp only [nonNearby, List.mem_map, List.mem_filter, mem_allCells, Bool.not_eq_eq_eq_not,
+    Bool.not_true]
+  constructor
+  · rintro ⟨r, ⟨hr, hnr⟩, rfl⟩
+    refine ⟨translate_valid hac hr, ?_⟩
+    rw [← Bool.not_eq_true] at hnr ⊢
+    rw [isNearby_iff hac, nearRel_translate hac hr, ← isNearby_iff hz]
+    exact hnr
+  · rintro ⟨hx, hnx⟩
+    have hr := relative_valid hx hac
+    refine ⟨relative g.n x ac, ⟨hr, ?_⟩, translate_relative hac hx⟩
+    rw [← Bool.not_eq_true] at hnx ⊢
+    rw [isNearby_iff hz, ← nearRel_translate hac hr, translate_relative hac hx, ← isNearby_iff hac]
+    exact hnx
+
+/-- **Nearby and non-nearby cells are complementary**: together they are all cells, each once. -/
+theorem cells_split (g : Grid) (ac : Cell) (hac : Valid g.n ac) :
+    (nearby g ac ++ nonNearby g ac).Perm (allCells g.n) := by
+  have h1 : ((allCells g.n).filter fun x => isNearby g ac x).Perm (nearby g ac) := by
+    rw [List.perm_ext_iff_of_nodup ((nodup_allCells g.n).filter _) (nodup_nearby g ac)]
+    intro x
+    simp only [List.mem_filter, mem_allCells, isNearby, List.contains_iff_mem]
+    exact ⟨fun h => h.2, fun h => ⟨nearby_valid hac h, h⟩⟩
+  exact (h1.symm.append (List.Perm.refl _)).trans (List.filter_append_perm _ _)
+
+theorem vetoArgs_filterMap (s : Occ) (c : Cell) : (vetoArgs s c).filterMap id = s.occ c := by
+  unfold vetoArgs
+  split
+  · rename_i h
+    have : s.occ c = [] := by simpa using h
+    simp [this]
+  · induction s.occ c with
+    | nil => rfl
+    | cons x xs ih => simp [List.filterMap_cons]
+
+/-- with at most one occupant per cell (the shipped leaf-unit cell-veto set-up) the mediator hands
+exactly one argument to `send_out_state` -/
+theorem vetoArgs_single (s : Occ) (c : Cell) (h : (s.occ c).length ≤ 1) : (vetoArgs s c).length = 1 := by
+  unfold vetoArgs
+  split
+  · rfl
+  · rename_i hne
+    have : s.occ c ≠ [] := by simpa using hne
+    have : 0 < (s.occ c).length := List.length_pos_iff.mpr this
+    simp; omega
+
+theorem targetsVeto_eq (g : Grid) (s : Occ) (ac : Cell) (a : Ident) (h : s.active = some (ac, a)) :
+    targetsVeto g s = ((vetoDomain g).map (translate g.n ac)).flatMap s.occ := by
+  simp only [targetsVeto, vetoTargets, h]
+  induction vetoDomain g with
+  | nil => rfl
+  | cons r rs ih => simp [List.flatMap_cons, vetoArgs_filterMap, ih]
+
+theorem flatMap_filter_nonempty {α β : Type} (f : α → List β) (p : α → Bool) (l : List α) :
+    (l.filter fun c => !(f c).isEmpty && p c).flatMap f = (l.filter p).flatMap f := by
+  induction l with
+  | nil => rfl
+  | cons x xs ih =>
+    by_cases hp : p x = true <;> by_cases he : (f x).isEmpty = true
+    · have : f x = [] := by simpa using he
+      simp [List.filter_cons, hp, he, ih, this]
+    · simp [List.filter_cons, hp, he, ih]
+    · simp [List.filter_cons, hp, he, ih]
+    · simp [List.filter_cons, hp, he, ih]
+
+theorem targetsBounding_eq (g : Grid) (s : Occ) (ac : Cell) (a : Ident) (h : s.active = some (ac, a)) :
+    targetsBounding g s = (nonNearby g ac).flatMap s.occ := by
+  simp only [targetsBounding, cellBoundingTagger, h, nonNearby]
+  rw [← flatMap_filter_nonempty s.occ (fun x => !(isNearby g ac x))]
+  induction (allCells g.n).filter fun c => !(s.occ c).isEmpty && !(isNearby g ac c) with
+  | nil => rfl
+  | cons x xs ih => simp [List.flatMap_cons, ih]
+
+theorem pairTargets_pairs {α : Type} (a : Ident) (f : α → List Ident) (l : List α) :
+    pairTargets (l.flatMap fun x => (f x).map fun o => [a, o]) = l.flatMap f := by
+  have inner : ∀ ys : List Ident, (ys.map fun o => [a, o]).flatMap List.tail = ys := by
+    intro ys
+    induction ys with
+    | nil => rfl
+    | cons y ys ih => simp [List.flatMap_cons, ih]
+  induction l with
+  | nil => rfl
+  | cons x xs ih =>
+    simp only [pairTargets] at ih ⊢
+    simp [List.flatMap_cons, List.flatMap_append, inner, ih]
+
+theorem targetsExcluded_eq (g : Grid) (s : Occ) (ac : Cell) (a : Ident) (h : s.active = some (ac, a)) :
+    targetsExcluded g s = (nearby g ac).flatMap s.occ := by
+  simp only [targetsExcluded, excludedCellsTagger, h]
+  exact pairTargets_pairs a s.occ _
+
+theorem targetsSurplus_eq (s : Occ) (ac : Cell) (a : Ident) (h : s.active = some (ac, a)) :
+    targetsSurplus s = s.yieldSurplus := by
+  simp only [targetsSurplus, surplusCellsTagger, h]
+  have := pairTargets_pairs a (fun x : Ident => [x]) s.yieldSurplus
+  simpa [List.flatMap_singleton'] using this
+
+/-- The explicit invariant of the occupancy state the theorems need (that `SingleActiveCellOccupancy`
+maintains it is property C11): the active unit is `a` in the valid cell `ac`, and the stored
+identifiers (occupants of all cells, then surplus) are the relevant units other than `a`,
+each exactly once. -/
+structure OccInv (g : Grid) (s : Occ) (relevant : List Ident) (ac : Cell) (a : Ident) : Prop where
+  active : s.active = some (ac, a)
+  cell_valid : Valid g.n ac
+  relevant_nodup : relevant.Nodup
+  active_relevant : a ∈ relevant
+  stored_eq : (stored g s).Perm (relevant.erase a)
+
+/-- what the three event families treat never depends on the invariant: it is the stored units,
+re-grouped -/
+theorem cell_families_are_stored_veto (g : Grid) (s : Occ) (ac : Cell) (a : Ident)
+    (h : s.active = some (ac, a)) (hac : Valid g.n ac) :
+    (targetsVeto g s ++ targetsExcluded g s ++ targetsSurplus s).Perm (stored g s) := by
+  rw [targetsVeto_eq g s ac a h, targetsExcluded_eq g s ac a h, targetsSurplus_eq s ac a h, stored]
+  refine List.Perm.append ?_ (List.Perm.refl _)
+  have h1 := (veto_domain_translate g ac hac).flatMap_right s.occ
+  have h2 := (cells_split g ac hac).flatMap_right s.occ
+  rw [List.flatMap_append] at h2
+  exact ((h1.append (List.Perm.refl _)).trans List.perm_append_comm).trans h2
+
+theorem cell_families_are_stored_bounding (g : Grid) (s : Occ) (ac : Cell) (a : Ident)
+    (h : s.active = some (ac, a)) (hac : Valid g.n ac) :
+    (targetsBounding g s ++ targetsExcluded g s ++ targetsSurplus s).Perm (stored g s) := by
+  rw [targetsBounding_eq g s ac a h, targetsExcluded_eq g s ac a h, targetsSurplus_eq s ac a h, stored]
+  refine List.Perm.append ?_ (List.Perm.refl _)
+  have h2 := (cells_split g ac hac).flatMap_right s.occ
+  rw [List.flatMap_append] at h2
+  exact List.perm_append_comm.trans h2
+
+/-- **C10, cell half (cell-veto variant).**  Occupants of non-nearby cells (reached through the
+walker domain, the translation to the active cell and the mediator's look-up), occupants of nearby
+cells (pair in-states of the excluded-cells tagger) and surplus units (pair in-states of the
+surplus tagger) together are exactly the relevant units other than the active one — as a list
+permutation, i.e. with multiplicities: nobody is missed, nobody is treated twice. -/
+theorem cell_partition_veto (g : Grid) (s : Occ) (relevant : List Ident) (ac : Cell) (a : Ident)
+    (inv : OccInv g s relevant ac a) :
+    (targetsVeto g s ++ targetsExcluded g s ++ targetsSurplus s).Perm (relevant.erase a) :=
+  (cell_families_are_stored_veto g s ac a inv.active inv.cell_valid).trans inv.stored_eq
+
+/-- **C10, cell half (cell-bounding-potential variant).** -/
+theorem cell_partition_bounding (g : Grid) (s : Occ) (relevant : List Ident) (ac : Cell) (a : Ident)
+    (inv : OccInv g s relevant ac a) :
+    (targetsBounding g s ++ targetsExcluded g s ++ targetsSurplus s).Perm (relevant.erase a) :=
+  (cell_families_are_stored_bounding g s ac a inv.active inv.cell_valid).trans inv.stored_eq
+
+/-- nobody is treated twice, and the active unit is not its own target -/
+theorem cell_targets_nodup (g : Grid) (s : Occ) (relevant : List Ident) (ac : Cell) (a : Ident)
+    (inv : OccInv g s relevant ac a) :
+    (targetsVeto g s ++ targetsExcluded g s ++ targetsSurplus s).Nodup ∧
+    (targetsBounding g s ++ targetsExcluded g s ++ targetsSurplus s).Nodup ∧
+    a ∉ targetsVeto g s ++ targetsExcluded g s ++ targetsSurplus s ∧
+    a ∉ targetsBounding g s ++ targetsExcluded g s ++ targetsSurplus s := by
+  have hn : (relevant.erase a).Nodup := inv.relevant_nodup.erase a
+  have ha : a ∉ relevant.erase a := fun h => (List.Nodup.mem_erase_iff inv.relevant_nodup).mp h |>.1 rfl
+  have p1 := cell_partition_veto g s relevant ac a inv
+  have p2 := cell_partition_bounding g s relevant ac a inv
+  exact ⟨p1.nodup_iff.mpr hn, p2.nodup_iff.mpr hn, fun h => ha (p1.subset h), fun h => ha (p2.subset h)⟩
+
+/-- every other relevant unit is the target of exactly one in-state / walker cell in total:
+its multiplicities in the three families add up to one -/
+theorem cell_target_exactly_one_family (g : Grid) (s : Occ) (relevant : List Ident) (ac : Cell) (a : Ident)
+    (inv : OccInv g s relevant ac a) (u : Ident) (hu : u ∈ relevant) (hua : u ≠ a) :
+    (targetsVeto g s).count u + (targetsExcluded g s).count u + (targetsSurplus s).count u = 1 ∧
+    (targetsBounding g s).count u + (targetsExcluded g s).count u + (targetsSurplus s).count u = 1 := by
+  have hn : (relevant.erase a).Nodup := inv.relevant_nodup.erase a
+  have hm : u ∈ relevant.erase a := (List.mem_erase_of_ne hua).mpr hu
+  have hc : (relevant.erase a).count u = 1 := List.count_eq_one_of_mem hn hm
+  have p1 := (cell_partition_veto g s relevant ac a inv).count_eq u
+  have p2 := (cell_partition_bounding g s relevant ac a inv).count_eq u
+  simp only [List.count_append] at p1 p2
+  omega
 
 /-- a deactivated / irrelevant active unit: no cell-based in-state at all -/
 theorem no_active_no_instates (g : Grid) (s : Occ) (h : s.active = none) :
     cellVetoTagger s = [] ∧ cellBoundingTagger g s = [] ∧ excludedCellsTagger g s = [] ∧
     surplusCellsTagger s = [] ∧ vetoTargets g s = [] := by
   simp [cellVetoTagger, cellBoundingTagger, excludedCellsTagger, surplusCellsTagger, vetoTargets, h]
+
+/-- every in-state of the four taggers starts with the active unit -/
+theorem instates_start_with_active (g : Grid) (s : Occ) (ac : Cell) (a : Ident) (h : s.active = some (ac, a)) :
+    ∀ i ∈ cellVetoTagger s ++ cellBoundingTagger g s ++ excludedCellsTagger g s ++ surplusCellsTagger s,
+      i.head? = some a := by
+  intro i hi
+  simp only [cellVetoTagger, cellBoundingTagger, excludedCellsTagger, surplusCellsTagger, h,
+    List.mem_append, List.mem_map, List.mem_flatMap, List.mem_singleton] at hi
+  rcases hi with ((rfl | ⟨c, _, rfl⟩) | ⟨c, _, o, _, rfl⟩) | ⟨x, _, rfl⟩ <;> rfl
 
 end JF.C10
